@@ -97,6 +97,11 @@ var probeKinds = []probeKind{
 	// two services in two files, one importing the other
 	{"raw", "http", "json", "GET /sim/orders/o1", svcSimOrders + ".GetOrder"}, {"raw", "http", "json", "GET /sim/users/u1", svcSimUsers + ".GetUser"},
 	{"raw", "http", "json", "POST /sim.shop.Users/GetUser", svcSimUsers + ".GetUser"},
+	// ... asking with a field that only the backends' build of sim/users.proto
+	// has (the one the gateway links is older): in the service's own file, and
+	// in a file it imports
+	{"raw", "http", "json", "GET /sim/users/u2?email=u2%40sim.test", svcSimUsers + ".GetUser"},
+	{"raw", "http", "json", "GET /sim/orders/o2?buyer.email=b%40sim.test", svcSimOrders + ".GetOrder"},
 }
 
 // registryRules are the service-config rules every registrysim mux carries.
